@@ -942,10 +942,6 @@ theorem collinear_optimum_not_unique (T : Sim3 ℝ) (hT : Sim3.Valid T) (c u : V
     have := congrArg Quat.w this
     rw [hw] at this; simp [Quat.neg] at this
 
-theorem apeCore_length_self (eps atol : ℝ) (alignFn : List (Vec3 ℝ) → List (Vec3 ℝ) → Sim3 ℝ) (et : EType) (mode : AlignMode)
-    (rp : List (SE3 ℝ)) : (apeCore eps atol alignFn et mode rp rp).length = rp.length := by
-  unfold apeCore; simp
-
 /-- **`ape` of a trajectory with itself returns zero statistics** — from the raw inputs: at least two poses (the quantifier is
 3..200) with pairwise distinct stamps, any positive `diff`, zero offset, any error type, no alignment or `origin`. -/
 theorem ape_identical_zero (eps atol : ℝ) (heps : 0 ≤ eps) (hatol : atol ≤ 1)
@@ -1271,20 +1267,6 @@ theorem rpeCore_unit_scale_alignment (eps atol : ℝ) (alignFn : List (Vec3 ℝ)
   conv_lhs => rw [hone]
   exact rpeTail_left eps atol et pm dN delta rtol all rpair SE3one ⟨T.t, T.q⟩ Spline.SE3_valid_one hG rp ep hR hE
 
-theorem transOf_origin_valid (alignFn : List (Vec3 ℝ) → List (Vec3 ℝ) → Sim3 ℝ) (rp ep : List (SE3 ℝ))
-    (hR : ∀ p ∈ rp, SE3.Valid p) (hE : ∀ p ∈ ep, SE3.Valid p) :
-    Sim3.Valid (transOf alignFn .origin rp ep) ∧ (transOf alignFn .origin rp ep).s = 1 := by
-  have hr : SE3.Valid (rp.headD SE3one) := by
-    cases rp with
-    | nil => exact Spline.SE3_valid_one
-    | cons r _ => exact hR r (by simp)
-  have he : SE3.Valid (ep.headD SE3one) := by
-    cases ep with
-    | nil => exact Spline.SE3_valid_one
-    | cons e _ => exact hE e (by simp)
-  simp only [transOf, originT]
-  exact ⟨⟨SE3_valid_mul _ _ hr (SE3_valid_inv _ he), by simp⟩, by simp⟩
-
 /-- **RPE of identical trajectories is zero** — every error type, every pairing, every alignment mode whose transform is valid
 with unit scale (none, `origin`, rigid `svdstf`; no uniqueness hypothesis): all errors vanish, and all seven statistics for at
 least two pairs. -/
@@ -1531,18 +1513,6 @@ example : ∀ (i : Nat) (hi : i < ([0.001, 1.001] : List ℝ).length),
 the octahedron scaled by 2, rotated by `q₀ = (0, 0, 0.6, 0.8)` (angle `2·atan(3/4)` about z) and shifted by `d = (1, 2, 3)`; rigid
 mode (scale fixed to 1). The optimum is `A = (d, q₀, 1) ≠ identity` with NON-ZERO residual `6`, and it is unique as a
 transformation: for every admissible `T = (t, q, 1)`, `cost T = 6 + 6‖t − d‖² + 32 (x² + y² + (0.8 z − 0.6 w)²)`. -/
-
-noncomputable def octaP : List (Vec3 ℝ) := [⟨1, 0, 0⟩, ⟨-1, 0, 0⟩, ⟨0, 1, 0⟩, ⟨0, -1, 0⟩, ⟨0, 0, 1⟩, ⟨0, 0, -1⟩]
-noncomputable def octaQ : List (Vec3 ℝ) :=
-  [⟨39 / 25, 98 / 25, 3⟩, ⟨11 / 25, 2 / 25, 3⟩, ⟨-23 / 25, 64 / 25, 3⟩, ⟨73 / 25, 36 / 25, 3⟩, ⟨1, 2, 5⟩, ⟨1, 2, 1⟩]
-noncomputable def octaA : Sim3 ℝ := ⟨⟨1, 2, 3⟩, ⟨0, 0, 3 / 5, 4 / 5⟩, 1⟩
-
-theorem cost_octa (t : Vec3 ℝ) (q : Quat ℝ) (hq : q.x * q.x + q.y * q.y + q.z * q.z + q.w * q.w = 1) :
-    cost ⟨t, q, 1⟩ octaP octaQ = 6 + 6 * ((t.x - 1) ^ 2 + (t.y - 2) ^ 2 + (t.z - 3) ^ 2)
-      + 32 * (q.x ^ 2 + q.y ^ 2 + (4 / 5 * q.z - 3 / 5 * q.w) ^ 2) := by
-  simp only [cost, octaP, octaQ, List.zipWith_cons_cons, List.zipWith_nil_right, List.sum_cons, List.sum_nil, Sim3Act]
-  lie_unfold
-  linear_combination (16 * (q.x * q.x + q.y * q.y + q.z * q.z) - 288 / 25) * hq
 
 /-- the contract holds at a rotated, shifted, scaled target with non-zero residual (non-vacuity of `AlignOK`, rigid mode) -/
 theorem alignOK_octahedron : AlignOK true octaA octaP octaQ ∧ cost octaA octaP octaQ = 6 ∧ ¬ Sim3Equiv octaA Sim3one := by
